@@ -20,7 +20,7 @@ LEAN_MODULES = ["NiftyVerif.Core.Proto", "NiftyVerif.Model.RVec", "NiftyVerif.Mo
 DRIVER = "Driver/C17.lean"
 OBLIGATIONS = ["NiftyVerif.C17." + t for t in (
     "ncg_never_uphill", "static_ncg_never_uphill", "static_ncg_eq_eager", "line_search_accepts_first",
-    "negcurv_progress", "trust_never_uphill", "static_stack_eq_eager_stack", "old_rule_accepts_uphill", "zero_energy_args_differ")]
+    "negcurv_progress", "trust_never_uphill", "static_stack_eq_eager_stack", "old_rule_accepts_uphill", "zero_energy_args_differ", "static_stack_eq_eager_stack_default")]
 RULE = ("objective family (quartic double well with couplings, Rosenbrock-like, convex, cubic-perturbed; trigonometric in the "
         "oracle-only stream) x dimension x pytree shape x start (positive / zero / negative curvature along the gradient) x "
         "iteration limits, absdelta, xtol; non-trivial = at least one Newton iteration with a non-zero gradient; distinct by "
@@ -32,13 +32,18 @@ TRUSTED_BASE = [
     "jax.value_and_grad / jvp compute the gradient and Hessian-vector product of the generated polynomial (driver "
     "differentiates the polynomial symbolically)",
     "IEEE rounding, XLA, lax.while_loop/cond: executed, not modelled"]
-ASSUMPTIONS = ["NaN handling, time_threshold, logging, nfev/njev/nhev not modelled",
-               "CG stopping parameters derived from the energy history (cg_absdelta, cg_resnorm with norm_ord=1) are not "
-               "modelled: in model-compared cases the CG configuration is pinned through cg_kwargs",
+ASSUMPTIONS = ["time_threshold, logging, njev/nhev not modelled (nfev is compared: 1 + number of line-search trials)",
+               "NaN: modelled as a region predicate of the objective (NaN trials rejected, NaN start raises); NaN gradients and "
+               "NaN inside _trust_ncg are outside the model",
+               "CG stopping parameters derived from the energy history and the gradient magnitude are modelled "
+               "(eagerCgArgs/staticCgArgs, cgCfgOf); norm_ord of the inner CG in {1, inf} (default 1) or pinned to 2 with a "
+               "fixed resnorm through cg_kwargs",
                "_trust_ncg: decision logic modelled with the sub-problem solver as an oracle; tie by replaying the recorded "
-               "answers of the real _cg_steihaug_subproblem (host callback) through the model"]
+               "answers of the real _cg_steihaug_subproblem (host callback) through the model; runs whose sub-problem answers "
+               "are non-finite (mixed-norm boundary case of the sub-problem solver) are outside the rational model"]
 
 XTOL = 1e-6
+_QUICK = [False]
 MARGIN = 1e-7
 _J = {}
 
@@ -58,11 +63,13 @@ def _jax():
 
 
 # ------------------------------------------------------------------------------------------------ objectives
-def _poly_fun(poly, n):
+def _poly_fun(poly, n, nan=None):
     jnp = _jax()["jnp"]
 
     def fflat(v):
         tot = 0.0
+        if nan is not None:      # 0*log(c - x_k): exactly 0 where x_k < c, NaN where x_k >= c (gradient stays finite)
+            tot = tot + 0.0 * jnp.log(nan[1] - v[nan[0]])
         for c, e in poly:
             term = c
             for i, k in enumerate(e):
@@ -101,7 +108,10 @@ def _mk(case):
         fflat = _trig_fun(case["trig"])
     else:
         poly = [(float(Fraction(m["c"])), m["e"]) for m in case["poly"]]
-        fflat = _poly_fun(poly, n)
+        nanspec = None
+        if case.get("nan"):
+            nanspec = (int(case["nan"]["coord"]), float(Fraction(case["nan"]["c"])))
+        fflat = _poly_fun(poly, n, nanspec)
     x0f = jnp.array([float(Fraction(v)) for v in case["x0"]], dtype=float)
     if k and 0 < k < n:
         x0 = jft.Vector({"a": x0f[:k], "b": (x0f[k:],)})
@@ -212,7 +222,7 @@ def _model_line(case):
     pin = bool(cg.get("pin_res", True))
     erf = case.get("erf", "default")
     return {"op": "ncg", "x0": case["x0"], "poly": case["poly"],
-            "cgfake": case.get("cgfake"),
+            "cgfake": case.get("cgfake"), "nan": case.get("nan"),
             "miniter": 0 if case.get("miniter") is None else case["miniter"],
             "maxiter": 200 if case.get("maxiter") is None else case["maxiter"],
             "absdelta": case.get("absdelta"), "xtol": rs(Fraction(case["xtol"]) * n),
@@ -243,7 +253,9 @@ def _trace_robust(case, m):
             # an exactly vanishing CG step after the first iteration (exact convergence of the rational run) is a
             # rounding event in floats: the float iterate carries a residual gradient of a few ulp
             return False
-        for te in it["trials"]:
+        for te, tn in zip(it["trials"], it.get("trialnan") or [False] * len(it["trials"])):
+            if tn:
+                continue          # a NaN trial is rejected by both: no float comparison involved
             te = _fl(te)
             if zero_step and te == e:
                 continue
@@ -404,6 +416,13 @@ def oracle(case):
     f0 = _f_at(case, x0)
     scale = abs(f0) + 1.0
     res = {}
+    if not math.isfinite(f0):
+        # the start itself is in the NaN region of the objective: both Newton-CG variants must refuse it alike
+        # ("energy is NaN"); nothing is claimed about the trust-region minimiser (it reports status 2 / a NaN value)
+        re_, rs_ = _run_real(case, "eager", None, pinned), _run_real(case, "static", None, pinned)
+        if ("error" in re_) != ("error" in rs_):
+            return ("eager and compiled Newton-CG disagree on a NaN start", _sig("eager_static_disagree", what="nan_start"))
+        return None
     for variant in ("eager", "static") + (("trust",) if case.get("trust", True) and not case.get("cgfake") else ()):
         o = _run_trust_recorded(case)[0] if variant == "trust" else _run_real(case, variant, None, pinned)
         res[variant] = o
@@ -449,8 +468,11 @@ def oracle(case):
         if first is not None:
             sk = sched[first]
             kw1 = dict(_kwargs(case, pinned), maxiter=1, miniter=None)
-            for variant in ("eager", "static"):
-                o = _run_real(case, variant, kw1, pinned)
+            # quick tier: the compiled variant is asked again only when that costs no extra compilation (maxiter == 1);
+            # compiled = eager is checked on the full run below in any case
+            for variant in (("eager", "static") if (not _QUICK[0] or case.get("maxiter") == 1) else ("eager",)):
+                same = case.get("maxiter") == 1 and case.get("miniter") is None
+                o = _run_real(case, variant, None if same else kw1, pinned)
                 if "error" in o:
                     return (f"{variant} Newton-CG fails ({o['error']}) at a negative-curvature start",
                             _sig("negcurv_no_progress", variant=variant, how="error", cg="fake" if fake else "library"))
@@ -571,6 +593,10 @@ def _gen_case(rng, quick, modelled=True):
                       "maxiter": rng.choice([None, None, 1, 2])}
     else:
         case["cg"] = None
+    if modelled and rng.random() < 0.25:
+        # NaN region x_k >= c of the objective (0*log(c - x_k)): trials landing there must be rejected, a NaN start raises
+        k = rng.randrange(n)
+        case["nan"] = {"coord": k, "c": rs(x0[k] + rng.choice([Fraction(1, 16), Fraction(1, 4), Fraction(1), Fraction(-1, 8)]))}
     if modelled and family != "flat" and rng.random() < 0.3:
         # the CG solver is an oracle for the minimiser: a fake one (scaled gradient, chosen info) drives the line search
         # into its halving / reset / abort branches
@@ -698,8 +724,24 @@ def _gen_default_case(rng):
             "erf": rng.choice(["default", "default", "default", None, rs(0.5)])}
     if rng.random() < 0.5:
         case["absdelta"] = rs(rng.choice([1e-3, 1e-1, 1.0, 10.0]))
-    if rng.random() < 0.25:
-        case["old_fval"] = rs(float(_pyval(poly, [float(v) for v in x0])) + rng.choice([0.5, 2.0, 10.0]))
+    if rng.random() < 0.5:
+        # start close to a minimiser (generator-side scipy search): the gradient magnitude is small, the CG's residual bound
+        # min(.5, sqrt(mag))*mag is tight, and with a previous energy far above the start the ENERGY criterion stops the CG
+        try:
+            from scipy.optimize import minimize as _spmin
+            xf0 = [float(v) for v in x0]
+            sol = _spmin(lambda z: _pyval(poly, list(z)), xf0, jac=lambda z: np.array(_pygrad(poly, list(z))), method="BFGS")
+            if sol.success or sol.fun < _pyval(poly, xf0):
+                x0 = [Fraction(round(float(z) * 64), 64) + Fraction(rng.randint(-2, 2), 128) for z in sol.x]
+                case["x0"] = [rs(v) for v in x0]
+                case["near_min"] = True
+        except Exception:
+            pass
+    if case.get("near_min") or rng.random() < 0.6:
+        # a previous energy far above the start: the CG's energy criterion (energy_reduction_factor*(old_fval - energy))
+        # is generous and stops the inner solver before its residual criterion
+        case["old_fval"] = rs(float(_pyval(poly, [float(v) for v in x0])) + rng.choice([0.5, 2.0, 10.0, 100.0, 1000.0]))
+        case["cg"]["miniter"] = rng.choice([0, 1])
     return case
 
 
@@ -724,6 +766,92 @@ def _gen_trust_case(rng):
                 return {"op": "ncg", "family": "doublewell", "poly": poly, "x0": [rs(x0)], "split": 0, "miniter": None,
                         "maxiter": 1, "absdelta": None, "xtol": rs(1e-5), "cg": None, "trust": True,
                         "trust_radius": rs(r), "trust_target": True}
+    return None
+
+
+def _steihaug_replica(B, g, tr, resnorm=1e-10, maxiter=None):
+    """generator-side float replica of `_cg_steihaug_subproblem` (radius tested in the inf-norm, intersections with the
+    Euclidean ball) used only to FIND inputs; returns (step, pred_f) with pred_f relative to cur_val = 0"""
+    n = len(g)
+    maxiter = 20 * n if maxiter is None else maxiter
+    soa = lambda p: float(g @ p + 0.5 * p @ B @ p)
+
+    def inter(z, d):
+        a, b, c = d @ d, 2 * (z @ d), z @ z - tr ** 2
+        disc = b * b - 4 * a * c
+        if disc < 0 or a == 0:
+            return None
+        aux = b + math.copysign(math.sqrt(disc), b)
+        if aux == 0:
+            return None
+        ta, tb = -aux / (2 * a), -2 * c / aux
+        return (ta, tb) if ta < tb else (tb, ta)
+    z = np.zeros(n)
+    r = g.copy()
+    d = -r
+    for nit in range(1, maxiter + 1):
+        Bd = B @ d
+        dBd = d @ Bd
+        r2 = r @ r
+        if dBd == 0 or r2 == 0:
+            return None
+        alpha = r2 / dBd
+        zn = z + alpha * d
+        rn = r + alpha * Bd
+        if dBd <= 0:
+            t = inter(z, d)
+            if t is None:
+                return None
+            pa, pb = z + t[0] * d, z + t[1] * d
+            p = pa if soa(pa) < soa(pb) else pb
+            return p, soa(p)
+        if np.max(np.abs(zn)) >= tr:
+            t = inter(z, d)
+            if t is None:
+                return None
+            p = z + t[1] * d
+            return p, soa(p)
+        if nit >= maxiter or np.sum(np.abs(rn)) < resnorm:
+            return zn, soa(zn)
+        d = -rn + (rn @ rn) / r2 * d
+        z, r = zn, rn
+    return None
+
+
+def _gen_trust_mixed_case(rng):
+    """targeted: quadratic objective and trust radius between the inf-norm and the 2-norm of the first CG iterate of the
+    sub-problem: the regime where `_cg_steihaug_subproblem` (radius tested in the inf-norm, intersections with the Euclidean
+    ball) can predict an INCREASE (found with a generator-side replica); an acceptance rule that ignores the sign of the
+    predicted reduction goes uphill there"""
+    for _ in range(20000):
+        n = rng.randint(2, 3)
+        A = [[rng.randint(-4, 4) for _ in range(n)] for _ in range(n)]
+        B = [[Fraction(A[a][b] + A[b][a], 2) for b in range(n)] for a in range(n)]
+        g = [rng.randint(-5, 5) for _ in range(n)]
+        gg = sum(v * v for v in g)
+        c = sum(g[a] * B[a][b] * g[b] for a in range(n) for b in range(n))
+        if gg == 0 or c <= 0:
+            continue
+        z1 = [-Fraction(gg) / c * v for v in g]
+        lo, hi = max(abs(v) for v in z1), math.sqrt(float(sum(v * v for v in z1)))
+        if hi <= float(lo) * 1.02:
+            continue
+        tr = float(lo) + (hi - float(lo)) * rng.choice([0.1, 0.5, 0.9])
+        rep = _steihaug_replica(np.array([[float(v) for v in row] for row in B]), np.array(g, dtype=float), tr)
+        if rep is None or not (rep[1] > 1e-6 and np.all(np.isfinite(rep[0]))):
+            continue
+        poly = [_mono(g[a], _unit(n, a, 1)) for a in range(n) if g[a]]
+        for a in range(n):
+            if B[a][a]:
+                poly.append(_mono(B[a][a] / 2, _unit(n, a, 2)))
+            for b in range(a + 1, n):
+                if B[a][b]:
+                    e = [0] * n
+                    e[a] = e[b] = 1
+                    poly.append(_mono(B[a][b], e))
+        return {"op": "ncg", "family": "quadratic", "poly": poly, "x0": ["0"] * n, "split": 0, "miniter": None, "maxiter": 1,
+                "absdelta": None, "xtol": rs(1e-5), "cg": None, "trust": True, "trust_radius": rs(tr), "trust_mixed": True,
+                "trust_maxiter": rng.choice([1, 2, 4])}
     return None
 
 
@@ -793,8 +921,14 @@ def _check(ctx, cases):
         ctx.stat("n=%d" % len(c["x0"]))
         if c.get("neartie"):
             ctx.stat("neartie_trial")
+        if c.get("nan"):
+            ctx.stat("nan_region")
+        if c.get("near_min"):
+            ctx.stat("near_min_start_energy_criterion")
         if c.get("trust_target"):
             ctx.stat("trust_slightly_uphill_trial")
+        if c.get("trust_mixed"):
+            ctx.stat("trust_mixed_norm_regime")
         if c.get("reset_target"):
             ctx.stat("reset_target=" + c["reset_target"])
         ctx.case(c, _nontrivial(c))
@@ -806,6 +940,8 @@ def _check(ctx, cases):
                 for it in m["trace"]:
                     if it is not None:
                         ctx.stat("trials=%d" % len(it["trials"]))
+                        if any(it.get("trialnan") or []):
+                            ctx.stat("nan_trial_rejected")
                         if _fl(it["curv"]) < 0:
                             ctx.stat("negative_curvature_iteration")
                         if not it["found"]:
@@ -836,12 +972,13 @@ def _check(ctx, cases):
 
 
 def run(ctx):
+    _QUICK[0] = bool(ctx.quick)
     cases = _load_corpus()
-    for _ in range(ctx.n(6, 50)):
+    for _ in range(ctx.n(6, 40)):
         cases.append(_gen_case(ctx.rng, ctx.quick, modelled=True))
-    for _ in range(ctx.n(2, 30)):
+    for _ in range(ctx.n(2, 22)):
         cases.append(_gen_case(ctx.rng, ctx.quick, modelled=False))
-    for _ in range(ctx.n(3, 30)):
+    for _ in range(ctx.n(4, 22)):
         cases.append(_gen_default_case(ctx.rng))
     for _ in range(ctx.n(3, 24)):
         c = _gen_reset_case(ctx.rng)
@@ -851,18 +988,34 @@ def run(ctx):
         c = _gen_trust_case(ctx.rng)
         if c is not None:
             cases.append(c)
+    for _ in range(ctx.n(2, 12)):
+        c = _gen_trust_mixed_case(ctx.rng)
+        if c is not None:
+            cases.append(c)
     for _ in range(ctx.n(1, 20)):
         cases.append(_gen_trig(ctx.rng))
     B = 40
     for a in range(0, len(cases), B):
         _check(ctx, cases[a:a + B])
-    tcases = [c for c in cases if c.get("poly") and not c.get("cgfake") and c.get("maxiter") != 0 and c.get("trust", True)]
+    tcases = [c for c in cases if c.get("poly") and not c.get("cgfake") and c.get("maxiter") != 0 and c.get("trust", True)
+              and not c.get("nan")]        # NaN energies inside _trust_ncg are outside the trust-region model
     _trust_tie(ctx, tcases[:ctx.n(6, 60)])
 
 
 def search(ctx):
-    for _ in range(ctx.n(20, 100)):
-        c = _gen_case(ctx.rng, True, modelled=False)
+    """a proof / correspondence broke and no failing input is known: run the property oracle (real code only) on the
+    corpus and on every targeted stream (negative-curvature starts, near-tie trials, reset/abort trials, slightly uphill
+    and mixed-norm trust-region steps, default-CG plumbing), then on plain generated cases"""
+    gens = [lambda: _gen_reset_case(ctx.rng), lambda: _gen_trust_case(ctx.rng), lambda: _gen_trust_mixed_case(ctx.rng),
+            lambda: _gen_default_case(ctx.rng), lambda: _gen_case(ctx.rng, True, modelled=True),
+            lambda: _gen_case(ctx.rng, True, modelled=False), lambda: _gen_trig(ctx.rng)]
+    cases = _load_corpus()
+    for _ in range(ctx.n(8, 30)):
+        for gfun in gens:
+            c = gfun()
+            if c is not None:
+                cases.append(c)
+    for c in cases:
         r = oracle(c)
         if r is not None:
             ctx.counterexample(c, r[0], r[1])
